@@ -261,8 +261,20 @@ def gen_parallel(rng, tier):
         k = rng.randint(1, m)
         opts["order"] = rng.sample(range(m), k) if rng.random() < 0.8 else [rng.randrange(m) for _ in range(k)]
         opts["labels"] = rng.random() < 0.4
-    return {"kind": "parallel", "arch": {"type": "grid", "dims": dims, "ranges": ranges, "dtype": "float64"},
+    case = {"kind": "parallel", "arch": {"type": "grid", "dims": dims, "ranges": ranges, "dtype": "float64"},
             "adds": adds, "batch": 1000, "fill": fill, "opts": opts}
+    if adds and rng.random() < 0.3:
+        # CMA-MAE archive whose best elite is later replaced by a worse solution (as in gen_grid): the default colour limits are the range
+        # of the STORED objectives, not the running statistics
+        case["arch"]["cma"] = True
+        case["batch"] = 1
+        best = max(adds, key=lambda x: x[1])
+        for a in [best] + [rng.choice(adds) for _ in range(rng.randint(0, 2))]:
+            case["adds"].append([list(a[0]), a[1] - rng.choice([0.5, 1.0, 3.25])])
+        keep = {k: opts[k] for k in ("sort", "cbar", "order", "labels") if k in opts}
+        case["opts"] = gen_common_opts(rng, [x[1] for x in case["adds"]], allow_transpose=False)
+        case["opts"].update(keep)
+    return case
 
 
 GENS = [("grid", gen_grid, 30), ("cvt", gen_cvt, 30), ("sliding", gen_sliding, 12), ("proximity", gen_proximity, 12),
